@@ -80,6 +80,10 @@ class Scheduler:
         self.ctl.release()
         t.sem.acquire()
         if self.abort:
+            # the run is being torn down: this thread unwinds alone (threads are released one at a time, see run()),
+            # with tracing off - CPython 3.12's tracing machinery is not robust against several threads unwinding
+            # through opcode-traced frames at once (a SIGSEGV was seen in a step-capped 8-thread run)
+            sys.settrace(None)
             raise SystemExit
 
     def _boot(self, t, fn):
@@ -139,13 +143,14 @@ class Scheduler:
                 nxt.sem.release()
                 self.ctl.acquire()
         finally:
-            # release anything still parked so the daemon threads can exit
+            # Threads that are still parked when a run is cut short (step cap, deadlock) stay parked for good: they are
+            # daemon threads, and every run executes in a process that exits right after it.  Waking them to unwind
+            # (SystemExit through frames traced at bytecode granularity) crashed CPython 3.12.1 with SIGSEGV in a
+            # step-capped 8-thread run - twice in about 80 000 thread runs - so nothing is unwound any more.
             self.abort = True
             for t in self.threads:
-                if not t.done:
-                    t.sem.release()
-            for t in self.threads:
-                t.thread.join(timeout=5)
+                if t.done:
+                    t.thread.join(timeout=5)
 
     def _pick(self, run):
         i = len(self.schedule_out)
